@@ -717,6 +717,7 @@ type callFault struct {
 	Phase   string        `json:"phase"` // join | join-observe | basic-join | leaving
 	K       int           `json:"first_rejected_cas_call"`
 	L       int           `json:"rejected_cas_calls"`
+	LostAck bool          `json:"applied_but_acknowledgement_lost"`
 	Observe time.Duration `json:"observe_period"`
 }
 
@@ -763,7 +764,7 @@ func runCallFaults(t *testing.T, run *vt.Run, c vt.CaseID, cf callFault) (casCal
 		var mu sync.Mutex
 		calls, armedAt, rejected := 0, 0, 0
 		armed := cf.Phase != "leaving"
-		v.Handle.SetFaults(recstore.Faults{FailCAS: func(n int) bool {
+		pred := func(n int) bool {
 			mu.Lock()
 			defer mu.Unlock()
 			calls = n
@@ -775,11 +776,20 @@ func runCallFaults(t *testing.T, run *vt.Run, c vt.CaseID, cf callFault) (casCal
 			}
 			if rel := n - armedAt + 1; rel >= cf.K && rel < cf.K+cf.L {
 				rejected++
-				journal = append(journal, fmt.Sprintf("t=%v CAS call %d of the victim rejected", time.Since(t0), n))
+				if cf.LostAck {
+					journal = append(journal, fmt.Sprintf("t=%v CAS call %d of the victim: applied if it writes, but reported as failed", time.Since(t0), n))
+				} else {
+					journal = append(journal, fmt.Sprintf("t=%v CAS call %d of the victim rejected", time.Since(t0), n))
+				}
 				return true
 			}
 			return false
-		}})
+		}
+		if cf.LostAck {
+			v.Handle.SetFaults(recstore.Faults{LoseAck: pred})
+		} else {
+			v.Handle.SetFaults(recstore.Faults{FailCAS: pred})
+		}
 		_ = v.Start()
 		read := func() (ring.InstanceDesc, bool) {
 			x, _ := st.Client("harness-read").Get(context.Background(), lcsim.Key)
@@ -827,6 +837,29 @@ func runCallFaults(t *testing.T, run *vt.Run, c vt.CaseID, cf callFault) (casCal
 		}
 		e, ok := read()
 		det := map[string]any{"entry": fmt.Sprintf("present=%v %+v", ok, e), "service": svc.String(), "lifecycler_state": v.State().String()}
+		// the states this (never restarted) incarnation published, over every version written: they only move forward
+		// along pending, joining, active, leaving - whatever the store told the lifecycler about its writes
+		rank := map[ring.InstanceState]int{ring.PENDING: 1, ring.JOINING: 2, ring.ACTIVE: 3, ring.LEAVING: 4}
+		var seq []string
+		prev := ring.InstanceState(-1)
+		for _, ver := range st.VersionsOf(lcsim.Key) {
+			x, derr := ring.GetCodec().Decode(ver.Bytes)
+			if derr != nil {
+				continue
+			}
+			ve, present := ring.GetOrCreateRingDesc(x).Ingesters["victim-1"]
+			if !present {
+				continue
+			}
+			if ve.State != prev {
+				seq = append(seq, ve.State.String())
+				if prev >= 0 && rank[ve.State] < rank[prev] {
+					viol("published-state-went-backwards", fmt.Sprintf("the ring entry of the victim went from %v to %v without a restart (version %d written by %s)", prev, ve.State, ver.N, ver.Writer), map[string]any{"published_states": seq})
+				}
+				prev = ve.State
+			}
+		}
+		run.Count("published_state_sequences_checked", 1)
 		if !ok {
 			viol("not-re-registered", "three heartbeats after the rejected writes the entry is missing", det)
 			return
@@ -968,6 +1001,11 @@ func TestC09(t *testing.T) {
 			for _, l := range []int{1, 2, 4} {
 				x := ph
 				x.K, x.L = k, l
+				cfs = append(cfs, x)
+			}
+			for _, l := range []int{1, 2} {
+				x := ph
+				x.K, x.L, x.LostAck = k, l, true
 				cfs = append(cfs, x)
 			}
 		}
